@@ -214,6 +214,23 @@ NESTED_KEY_RENAMES = {"arguments": ("command", "arguments", "argumnts"), "execut
                       "aggregate": ("workflowAttributes", "aggregate", "agregate")}
 
 
+TYPE_VALUES = {"ffrac": 2.5, "fwhole": 2.0, "int": 2, "bool": True, "numstr": "2", "word": "two", "list": [2], "dict": {"a": 1},
+               "none": None}
+TYPE_SITE_PATH = {
+    "numberProcesses": ("resourceRequest", "numberProcesses"), "numberThreads": ("resourceRequest", "numberThreads"),
+    "ranksPerNode": ("resourceRequest", "ranksPerNode"), "threadsPerCore": ("resourceRequest", "threadsPerCore"),
+    "gpus": ("resourceRequest", "gpus"), "maxRestarts": ("workflowAttributes", "maxRestarts"),
+    "repeatRetries": ("workflowAttributes", "repeatRetries"), "replicate": ("workflowAttributes", "replicate"),
+    "gracePeriod": ("resourceManager", "kubernetes", "gracePeriod"), "walltime": ("resourceManager", "config", "walltime"),
+    "cpuUnitsPerCore": ("resourceManager", "kubernetes", "cpuUnitsPerCore"),
+    "statusRequestInterval": ("resourceManager", "lsf", "statusRequestInterval"), "arguments": ("command", "arguments"),
+    "executable": ("command", "executable"), "queue": ("resourceManager", "lsf", "queue"),
+    "aggregate": ("workflowAttributes", "aggregate"), "isMigratable": ("workflowAttributes", "isMigratable"),
+    "resolvePath": ("command", "resolvePath"), "references": ("references",), "shutdownOn": ("workflowAttributes", "shutdownOn"),
+    "backend": ("resourceManager", "config", "backend"), "stage": ("stage",),
+}
+
+
 def v_ref_string(owner, r):
     ps, pn, sp, path, method, _ = r
     s = pn + ("/" + path if path else "") + ":" + method
@@ -254,26 +271,23 @@ def v_render_component(c):
         d["command"]["zzqx"] = 1
     elif k:
         raise ValueError("unknown key site %r" % k)
-    # an option of the wrong type
+    # an option given a value of another class (spec: Rule(site, cls))
     t = c["xtype"]
-    if t == "replicate":
-        d.setdefault("workflowAttributes", {})["replicate"] = "two"
-    elif t == "aggregate":
-        d.setdefault("workflowAttributes", {})["aggregate"] = "maybe"
-    elif t == "aggregateInt":
-        d.setdefault("workflowAttributes", {})["aggregate"] = 3
-    elif t == "references":
-        d["references"] = refs[0]
-    elif t == "arguments":
-        d["command"]["arguments"] = list(toks)
-    elif t == "numberProcesses":
-        d["resourceRequest"] = {"numberProcesses": "many"}
-    elif t == "stage":
-        d["stage"] = "zero"
-    elif t == "shutdownOn":
-        d.setdefault("workflowAttributes", {})["shutdownOn"] = "KnownIssue"
-    elif t:
-        raise ValueError("unknown type site %r" % t)
+    if t:
+        if t not in TYPE_SITE_PATH:
+            raise ValueError("unknown type site %r" % t)
+        cls = c["xcls"]
+        if cls == "boolstr":
+            val = ("true" if c["g"] else "false") if t == "aggregate" else ("false" if t == "isMigratable" else "true")
+        elif cls in TYPE_VALUES:
+            val = copy.deepcopy(TYPE_VALUES[cls])
+        else:
+            raise ValueError("unknown value class %r" % cls)
+        route = TYPE_SITE_PATH[t]
+        tgt = d
+        for k in route[:-1]:
+            tgt = tgt.setdefault(k, {})
+        tgt[route[-1]] = val
     return d
 
 
